@@ -177,41 +177,45 @@ def rebuildBuf (order : List Nat) (sgIdx sgLen : SMap Nat) (u : Nat) (uNodes vNo
     (if g = u then uNodes ++ vNodes else slice order (getN sgIdx g) (getN sgLen g))
       ++ rebuildBuf order sgIdx sgLen u uNodes vNodes gs
 
+/-- step 2 of `try_merge` (union-find, predecessors, `sg_idx`/`sg_len`, enemies); `u` before `v`,
+both representatives.  `toposort_node` is not touched. -/
+def SM.mergeStep2 (sm : SM) (uf0 : Links) (u v : Nat) : SM :=
+  let vLen := getN sm.sgLen v
+  -- `UnionFind::union(u, v)`: `u` stays the representative
+  let uf1 := (ufUnion sm.n uf0 u v).1
+  -- `v_preds = subgraph_preds.remove(v)`, `u_preds.append(v_preds)`
+  let vPreds := getL sm.preds v
+  let preds1 := sm.preds.del v
+  -- `retain_mut(|x| { *x = find(*x); *x != u })`, `sort_unstable()`, `dedup()`
+  let mf := mapFind sm.n uf1 (getL preds1 u ++ vPreds)
+  let uPreds := toSortedSet (mf.2.filter (fun x => x != u))
+  { n := sm.n, preds := preds1.set u uPreds, order := sm.order,
+    -- `sg_idx.remove(v)`, `v_len = sg_len.remove(v)`, `sg_len[u] += v_len`
+    sgIdx := sm.sgIdx.del v,
+    sgLen := (sm.sgLen.del v).set u (getN (sm.sgLen.del v) u + vLen),
+    uf := mf.1, enemies := mergeEnemies sm.enemies u v }
+
+/-- step 3 of `try_merge`: re-sort the groups in the window `lo..hi` and rebuild it -/
+def SM.resortWindow (s2 : SM) (u lo hi : Nat) (uNodes vNodes : List Nat) : SM × MergeOut :=
+  let mw := mapFind s2.n s2.uf (slice s2.order lo (hi - lo))
+  let repsInWindow := toSortedSet mw.2
+  match topoSortS s2.n repsInWindow (windowPreds s2.n s2.preds s2.sgIdx lo hi) mw.1 with
+  | (.ok sorted, uf4) =>
+    let buf := rebuildBuf s2.order s2.sgIdx s2.sgLen u uNodes vNodes sorted
+    ({ s2 with order := s2.order.take lo ++ buf ++ s2.order.drop hi,
+               sgIdx := assignIdx s2.sgLen sorted lo s2.sgIdx, uf := uf4 }, .merged)
+  | (_, uf4) => ({ s2 with uf := uf4 }, .bug)
+
 /-- steps 2 and 3 of `try_merge` (after the cycle check passed); `u` before `v`, both representatives -/
 def SM.doMerge (sm : SM) (uf0 : Links) (u v : Nat) : SM × MergeOut :=
   let uIdx := getN sm.sgIdx u
   let uLen := getN sm.sgLen u
   let vIdx := getN sm.sgIdx v
   let vLen := getN sm.sgLen v
+  -- `u_nodes`, `v_nodes`, `window` are taken before anything is modified
   let uNodes := slice sm.order uIdx uLen
   let vNodes := slice sm.order vIdx vLen
-  let lo := uIdx
-  let hi := vIdx + vLen
-  -- 2. union-find, predecessors
-  let uf1 := (ufUnion sm.n uf0 u v).1
-  let vPreds := getL sm.preds v
-  let preds1 := sm.preds.del v
-  let mf := mapFind sm.n uf1 (getL preds1 u ++ vPreds)
-  let uf2 := mf.1
-  let uPreds := toSortedSet (mf.2.filter (fun x => x != u))
-  let preds2 := preds1.set u uPreds
-  let sgIdx1 := sm.sgIdx.del v
-  let sgLen1 := (sm.sgLen.del v).set u (getN (sm.sgLen.del v) u + vLen)
-  let enemies1 := mergeEnemies sm.enemies u v
-  -- 3. re-sort the window
-  let mw := mapFind sm.n uf2 (slice sm.order lo (hi - lo))
-  let uf3 := mw.1
-  let repsInWindow := toSortedSet mw.2
-  match topoSortS sm.n repsInWindow (windowPreds sm.n preds2 sgIdx1 lo hi) uf3 with
-  | (.ok sorted, uf4) =>
-    let buf := rebuildBuf sm.order sgIdx1 sgLen1 u uNodes vNodes sorted
-    let order' := sm.order.take lo ++ buf ++ sm.order.drop hi
-    let sgIdx2 := assignIdx sgLen1 sorted lo sgIdx1
-    ({ n := sm.n, preds := preds2, order := order', sgIdx := sgIdx2, sgLen := sgLen1,
-       uf := uf4, enemies := enemies1 }, .merged)
-  | (_, uf4) =>
-    ({ n := sm.n, preds := preds2, order := sm.order, sgIdx := sgIdx1, sgLen := sgLen1,
-       uf := uf4, enemies := enemies1 }, .bug)
+  (sm.mergeStep2 uf0 u v).resortWindow u uIdx (vIdx + vLen) uNodes vNodes
 
 /-- `try_merge` -/
 def SM.tryMerge (sm : SM) (u0 v0 : Nat) : SM × MergeOut :=
